@@ -145,6 +145,58 @@ def models(prog, F):
     return lits, tabs
 
 
+def table_overrides(F, tabs):
+    """stores `table[<constant>] = <constant expression | table2[<constant>]>` that follow the loops which fill the
+    tables, in source order: [(table did, index, ('val', v) | ('copy', table did, index), node)]"""
+    out = []
+    for a in F.body.find("BinaryOperator"):
+        if a.d["op"] != "=":
+            continue
+        l = a.kids[0].strip()
+        if l.k != "ArraySubscriptExpr":
+            continue
+        b = l.kids[0].strip(casts=True)
+        i = l.kids[1].strip(casts=True)
+        if b.k != "DeclRefExpr" or b.d["did"] not in tabs or i.cv is None:
+            continue
+        r = a.kids[1].strip(casts=True)
+        if r.k == "ArraySubscriptExpr" and r.kids[0].strip(casts=True).k == "DeclRefExpr" and r.kids[0].strip(casts=True).d["did"] in tabs \
+                and r.kids[1].strip(casts=True).cv is not None:
+            out.append((b.d["did"], i.cv, ("copy", r.kids[0].strip(casts=True).d["did"], r.kids[1].strip(casts=True).cv), a))
+        else:
+            v = feval(r)
+            if v is None:
+                raise AnalysisBroken("R13b: the value stored into %s[%s] at line %d is not a constant expression" % (b.d["name"], i.text(), a.line))
+            out.append((b.d["did"], i.cv, ("val", v), a))
+    return out
+
+
+def letter_weights(prog):
+    """({'nucleotide': [128 weights], 'protein': [...]}, lits, tabs) of detect_alphabet's two letter models, including single
+    entries set after the loops (e.g. protein['U'] = protein['T'])"""
+    F = prog.fn("detect_alphabet")
+    lits, tabs = models(prog, F)
+    tabs = {k: v for k, v in tabs.items() if v["lit"] is not None and v["default"] is not None}
+    if len(tabs) != 2:
+        raise AnalysisBroken("R13b slot: the two letter models of detect_alphabet were not recognised (%d)" % len(tabs))
+    Wd = {}
+    for did, t in tabs.items():
+        text = lits[t["lit"]][1]
+        t["kind"] = "protein" if len(set(text.upper()) - set(NUC)) >= 10 else "nucleotide"
+        w = [t["default"]] * 128
+        for c in text:
+            if ord(c) < 128:
+                w[ord(c)] = t["value"]
+        Wd[did] = w
+    for did, idx, what, node in table_overrides(F, tabs):
+        if not 0 <= idx < 128:
+            continue
+        Wd[did][idx] = what[1] if what[0] == "val" else Wd[what[1]][what[2]]
+    if sorted(t["kind"] for t in tabs.values()) != ["nucleotide", "protein"]:
+        raise AnalysisBroken("R13b slot: models classified as %s" % sorted(t["kind"] for t in tabs.values()))
+    return {tabs[d]["kind"]: w for d, w in Wd.items()}, lits, tabs
+
+
 def r13b(ck, prog):
     from ..affine import loop_range
     F = prog.fn("detect_alphabet")
@@ -185,13 +237,7 @@ def r13b(ck, prog):
     if sorted(kind.values()) != ["nucleotide", "protein"]:
         raise AnalysisBroken("R13b slot: models classified as %s" % sorted(kind.values()))
     # weights per character
-    W = {}
-    for did, t in tabs.items():
-        w = [t["default"]] * 128
-        for c in lits[t["lit"]][1]:
-            if ord(c) < 128:
-                w[ord(c)] = t["value"]
-        W[t["kind"]] = w
+    W = letter_weights(prog)[0]
     # accumulators and the voting filter
     acc = {}
     voters = None
